@@ -74,6 +74,8 @@ def operands(tier: str):
     pool += [Float(c=77, exp=-6), Float(s=True, c=101, exp=-3), Float(c=33, exp=-5)]      # wider than any target
     pool += [Float(c=0, exp=0), Float(s=True, c=0, exp=0), Float(isinf=True), Float(isinf=True, s=True), Float(isnan=True)]
     pool += [3, -5, 0.375, -0.0, Fraction(1, 3), Fraction(-5, 7), Fraction(5, 2)]
+    # rationals no Float holds, on either side of one half above an integer (a lost sticky digit turns 7/3 into a tie)
+    pool += [Fraction(7, 3), Fraction(-22, 7), Fraction(8, 3), Fraction(-4, 3)]
     return pool
 
 
